@@ -55,7 +55,7 @@ TIERS = {
     "quick": {"shards": 8, "budget_s": 30},
     "thorough": {"shards": 16, "budget_s": 300},
 }
-MIN_EVENTS = {"quick": 1500, "thorough": 15000}
+MIN_EVENTS = {"quick": 3000, "thorough": 30000}
 DECIDING = {"hpf", "hpf_trend", "hpf_gap", "lonf", "hpf_line", "hpf_span_clips"}
 EXHAUSTIVE = {"quick": False, "thorough": False}
 RULE = (
@@ -338,17 +338,16 @@ def _check_hp(c, which, xs, kw, span_serials, trend_snap, gap_snap, level_snap, 
                                     f"{which}: variant {v}: change of trend {d:.12g} != {val:.12g} at filter offset {j}", case=case)
                         return
         if gap_snap is not None:
-            g_raw = _col_on(gap_snap, v, lo - 1, hi + 1)
-            g_in = g_raw[1 + s0 - lo:1 + s1 - lo + 1]
-            outside = np.ones(g_raw.size, dtype=bool)
-            outside[1 + s0 - lo:1 + s1 - lo + 1] = False
+            g_in = _col_on(gap_snap, v, s0, s1)
             ys = y[sl]
             have = ~np.isnan(ys)
-            if (gap_snap[0] is not None and gap_snap[1].shape[0]
-                    and (gap_snap[0] < s0 or gap_snap[0] + gap_snap[1].shape[0] - 1 > s1)
-                    and not np.all(np.isnan(_col_on(gap_snap, v, min(gap_snap[0], s0), s0 - 1)))):
-                c.violation("hpf:gap-outside-requested-span", f"{which}: gap has values outside the requested span", case=case)
-                return
+            if gap_snap[0] is not None and gap_snap[1].shape[0]:
+                g0, g1 = gap_snap[0], gap_snap[0] + gap_snap[1].shape[0] - 1
+                stray = np.concatenate([_col_on(gap_snap, v, g0, s0 - 1) if g0 < s0 else np.zeros(0),
+                                        _col_on(gap_snap, v, s1 + 1, g1) if g1 > s1 else np.zeros(0)])
+                if stray.size and not np.all(np.isnan(stray)):
+                    c.violation("hpf:gap-outside-requested-span", f"{which}: gap has values outside the requested span", case=case)
+                    return
             if np.any(~np.isnan(g_in[~have])):
                 c.violation("hpf:gap-where-no-data", f"{which}: variant {v}: gap defined at span offsets {np.flatnonzero(~np.isnan(g_in) & ~have)[:5].tolist()} where the input has no observation", case=case)
                 return
@@ -1058,6 +1057,30 @@ _DIRECTED = [
 ]
 
 
+def _run_repo_tests(c, rel_files):
+    """thorough tier: the repository's own tests that touch these functions, run in-process under the monitors"""
+    import contextlib
+    import io
+    import os
+    root = os.path.join(rt.REPO, "tests")
+    if not os.path.isdir(root):
+        root = "/repo/tests"
+    files = [os.path.join(root, f) for f in rel_files if os.path.exists(os.path.join(root, f))]
+    if not files:
+        c.note("repo-tests:not-found")
+        return
+    try:
+        import pytest
+        buf = io.StringIO()
+        before = sum(c.events.values())
+        with contextlib.redirect_stdout(buf), contextlib.redirect_stderr(buf):
+            rc = pytest.main(["-q", "-p", "no:cacheprovider", "-W", "ignore", "--rootdir", os.path.dirname(root), *files])
+        c.extra["repo_tests_exit_code"] = int(rc)
+        c.extra["repo_tests_monitor_events"] = sum(c.events.values()) - before
+    except BaseException as exc:
+        c.inconc(f"repo-tests:harness:{type(exc).__name__}")
+
+
 def replay(c, case):
     install()
     kind = case.get("kind")
@@ -1081,7 +1104,9 @@ def shard(c):
     if c.shard == 0:
         c.sample(_DIRECTED[0])
         c.sample(_DIRECTED[3])
-    n_cases = c.scale(700, 12000)
+    n_cases = c.scale(1200, 30000)
+    if c.tier == "thorough" and c.shard == 0:
+        _run_repo_tests(c, ["series/hpf_test.py", "vars/red_var_test.py"])
     for i in range(n_cases):
         if c.out_of_time():
             break
